@@ -5,7 +5,8 @@ from ref import pattern as rp
 
 SEPS = [".", ".", ".", ".", "-", "_", "+"]
 PREFIXES = ["", "", "", "v", "v", "rel-", "ver"]
-TAG_SUFFIXES = ["", "", "[PYTAGNUM]", "[-TAG]", "[-TAGNUM]", "-TAG", "[PYTAG[NUM]]", "[-TAG[NUM]]", "[.PYTAGNUM]"]
+TAG_SUFFIXES = ["", "", "", "[PYTAGNUM]", "[PYTAGNUM]", "[-TAG]", "[-TAG]", "[-TAGNUM]", "-TAG", "[PYTAG[NUM]]", "[-TAG[NUM]]",
+                "[.PYTAGNUM]", "[.TAG]", "[.TAG[NUM]]", "[-TAG[.NUM]]", "[-TAG.NUM]", "[.TAGNUM]", ".TAG"]
 FIXED_WIDTH = {"YYYY", "0Y", "GGGG", "0G", "0M", "0D", "00J", "0W", "0U", "0V", "Q"}
 
 YEAR_Y = ["YYYY", "YYYY", "YYYY", "YY", "0Y"]
